@@ -386,6 +386,11 @@ CStep(s, sc, e, rb, dropped) ==
       [] e.ev = "ReadRet" -> ReadRet(s, sc, e)
       [] e.ev = "AnsStart" -> AnsStart(s, sc, e)
       [] e.ev = "AnsEnd" -> AnsEnd(s, sc, e)
+      \* C03: after a protocol upgrade the application reads all remaining bytes of the connection verbatim (the harness
+      \* reads as many as the client sent after the head)
+      [] e.ev = "UpgradeRead" ->
+            [s |-> s,
+             v |-> V(e.ok /\ (e.got = M(sc, e.c, e.m).blen \/ s.fault[e.c + 1] # "none"), Own(sc, "C03"), "UpgradeBytesDiffer")]
       [] e.ev = "KeptDrop" /\ e.c >= 0 -> [s |-> [s EXCEPT !.ans[e.c + 1][e.m + 1] = "ended"], v |-> <<>>]
       [] e.ev = "CFrame" -> CFrame(s, sc, e)
       [] e.ev = "CEof" -> CEof(s, sc, e)
